@@ -5,8 +5,12 @@
    for an injective renaming g, [same_part n ci (g o ci)] holds (C14_injective_same_part), so every
    `_partition_only` theorem below gives  f W ci == f W (map g ci). *)
 From Coq Require Import QArith Qreals Reals List Arith Bool ZArith Lia.
+From Coq Require Import Permutation Sorted.
 From BCT Require Import Base.Mat Base.SumQ Base.ListX Model.Partition Model.PartitionReal Model.PartitionDG
-  Proofs.Partition Proofs.PartitionVI Proofs.PartitionDG Proofs.PartitionGW.
+  Model.PartitionLS Model.PartitionGWB Model.PartitionDV
+  Proofs.Partition Proofs.PartitionVI Proofs.PartitionDG Proofs.PartitionGW Proofs.PartitionLS Proofs.PartitionGWB
+  Proofs.PartitionSignAgree Proofs.PartitionDV.
+From BCT Require Model.Modularity Proofs.ModularityQ.
 Import ListNotations.
 Open Scope Q_scope.
 
@@ -72,6 +76,22 @@ Theorem C14_modularity_und_sign_partition_only : forall n W ci ci' qt, same_part
   modularity_und_sign_q n W ci qt == modularity_und_sign_q n W ci' qt.
 Proof. exact modularity_und_sign_partition_only. Qed.
 
+(* the routine has a second, independent transcription in Model/Modularity.v (C02 proves there that the value the code
+   returns is the definitional signed modularity Qsign): the two are the same function.  (a) statement-level closing formula
+   of Modularity.run_und_sign on ITS canonical labels (np.unique as index in the sorted distinct labels), no hypothesis;
+   (b) for a symmetric matrix and ANY labelling `lab` of the same partition: the definitional Qsign with gamma = 1 *)
+Theorem C14_und_sign_models_agree : forall n W ci qt,
+  (let lb := tabv O n (Modularity.relabel0 n ci) in
+   let p := Modularity.sign_params n W (conv_qtype qt) in
+   let kn := snd (Modularity.sign_init n p lb) in
+   modularity_und_sign_q n W ci qt == Modularity.sign_closing n p (fst kn) (snd kn) 1 lb) /\
+  (forall lab : vec nat, ModularityQ.sym_on n W -> same_part n ci lab ->
+   modularity_und_sign_q n W ci qt == Modularity.Qsign n W 1 (conv_qtype qt) lab).
+Proof.
+  intros n W ci qt. split; [exact (und_sign_models_agree_closing n W ci qt)|].
+  intros lab Hs Hp. exact (und_sign_models_agree_any_lab n W ci qt lab Hs Hp).
+Qed.
+
 (* agreement: D[i,j] = number of partitions that put i and j together *)
 Theorem C14_agreement_counts : forall n np_ cis i j, (i < n)%nat -> (j < n)%nat -> i <> j ->
   agreement n np_ cis i j == sumQ (fun p => ind (Z.eqb (cis p i) (cis p j))) np_.
@@ -81,6 +101,45 @@ Theorem C14_agreement_partition_only : forall n np_ cis cis' i j,
   (forall p, (p < np_)%nat -> same_part n (cis p) (cis' p)) -> (i < n)%nat -> (j < n)%nat ->
   agreement n np_ cis i j == agreement n np_ cis' i j.
 Proof. exact agreement_partition_only. Qed.
+
+(* agreement / dummyvar AT STATEMENT LEVEL (Model/PartitionDV.v): dummyvar's argsort (an ORACLE: any permutation ix[:, p] of
+   0..n-1 that sorts column p -- the default quicksort is not stable), s_cis, mask, indptr = where(mask.flat) ++ [nnz], the
+   scipy CSC matrix read column by column, np.dot(ind, ind.T), the buffsz chunking (arange / append / zip / D +=) and
+   fill_diagonal.  For EVERY sorting oracle and every buffsz >= 1 it is the semantic model above. *)
+Theorem C14_agreement_statement_level : forall n m cis ix B i j, (1 <= B)%nat ->
+  (forall p, (p < m)%nat -> sorting_perm n (cis p) (ix p)) -> (i < n)%nat -> (j < n)%nat ->
+  agreement_stmt n m cis ix B i j == agreement n m cis i j.
+Proof. exact agreement_stmt_semantic. Qed.
+
+(* dummyvar itself: entry (i, r) counts the flat positions q = p*n + k whose column (number of run starts up to q, minus 1)
+   is r and whose node ix[k, p] is i; two positions share a column exactly when they belong to the same partition and
+   carry the same label; scipy's shape check len(indptr) = r + 1 passes (r = sum of the numbers of distinct labels);
+   every row holds exactly one 1 per partition *)
+Theorem C14_dummyvar_spec : forall n m cis ix, (0 < n)%nat -> (forall p, (p < m)%nat -> sorting_perm n (cis p) (ix p)) ->
+  (forall i r, (i < n)%nat -> dummyvar n m cis ix i r ==
+     sumQ (fun q => ind (Nat.eqb (dv_col n cis ix q) r) * ind (Nat.eqb (dv_indices n ix q) i)) (n * m)) /\
+  (forall q q', (q < n * m)%nat -> (q' < n * m)%nat ->
+     (dv_col n cis ix q = dv_col n cis ix q' <->
+      (q / n = q' / n)%nat /\ cis (q / n)%nat (dv_indices n ix q) = cis (q / n)%nat (dv_indices n ix q'))) /\
+  length (dv_indptr n m cis ix) = S (dv_r n m cis) /\
+  (forall i, (i < n)%nat -> sumQ (fun r => dummyvar n m cis ix i r) (dv_r n m cis) == inject_Z (Z.of_nat m)).
+Proof.
+  intros n m cis ix Hn Hs. split; [|split; [|split]].
+  - intros i r Hi. exact (dummyvar_spec n m cis ix i r Hs Hi).
+  - exact (dv_col_same n m cis ix Hn Hs).
+  - exact (dummyvar_shape n m cis ix Hn Hs).
+  - intros i Hi. exact (dummyvar_row_sum n m cis ix i Hs Hi).
+Qed.
+
+(* non-vacuity: an UNSTABLE argsort, three partitions, buffsz = 2 (two chunks) *)
+Example C14_agreement_statement_level_nonvacuous :
+  let cols := [[3; 1; 3; 2]; [7; 7; 7; 7]; [0; 1; 2; 3]]%Z in
+  let ixs := [[1; 3; 2; 0]; [3; 1; 2; 0]; [0; 1; 2; 3]]%nat in
+  (forall p, (p < 3)%nat -> sorting_perm 4 (of_list 0%Z (nth p cols [])) (of_list 0%nat (nth p ixs []))) /\
+  run_agreement_stmt 4 cols ixs 2 = [[0; 1; 2; 1]; [1; 0; 1; 1]; [2; 1; 0; 1]; [1; 1; 1; 0]] /\
+  run_agreement 4 cols = [[0; 1; 2; 1]; [1; 0; 1; 1]; [2; 1; 0; 1]; [1; 1; 1; 0]] /\
+  snd (run_dummyvar 4 cols ixs) = (8, 9)%nat.
+Proof. exact agreement_stmt_nonvacuous. Qed.
 
 (* ---- partition_distance, for an abstract log ---- *)
 Section PartitionDistance.
@@ -200,6 +259,27 @@ Theorem C14_gateway_witness_values :
   run_gw [[0; 1; 0]; [1; 0; 0]; [0; 0; 0]]%list [2; 2; 1]%Z = Some ([7 # 16; 3 # 4; 0], [0; 0; 0])%list.
 Proof. exact gw_witness_values. Qed.
 
+(* ---- gateway_coef_sign for BOTH centrality types (Model/PartitionGWB.v): the centrality vector is a parameter
+   (cent = s.copy() for 'degree'; cent = betweenness_wei(invert(W)) for 'betweenness', an external kernel whose value
+   depends on the matrix only -- oracle input, one vector for the positive and one for the negative part).
+   The 'degree' instance IS the model above; with 'betweenness' the clause is refuted as well: 4-cycle with weights
+   1,3,1,2 (betweenness [0,2,2,0]), blocks {0,1},{2,3}: numbering (1,2) gives Gpos[0] = 380/441, numbering (2,1) gives
+   305/441.  Open finding gateway_coef_sign[betweenness]:relabel, replayed on the implementation on every check. *)
+Theorem C14_gateway_coef_sign_degree_instance : forall n W c K, gcoef_c n W c K (tabv 0 n (gw_s n W)) = gcoef n W c K.
+Proof. exact gcoef_c_degree. Qed.
+
+Theorem C14_gateway_coef_sign_betweenness_refuted :
+  exists n W ci ci' centp centn, same_part n ci ci' /\
+    ~ gw_agree n (gateway_coef_sign_betw n W ci centp centn) (gateway_coef_sign_betw n W ci' centp centn).
+Proof. exact gateway_coef_sign_betw_refuted. Qed.
+
+Theorem C14_gateway_betweenness_witness_values :
+  run_gwb [[0; 1; 0; 2]; [1; 0; 3; 0]; [0; 3; 0; 1]; [2; 0; 1; 0]]%list [1; 1; 2; 2]%Z [0; 2; 2; 0]%list [0; 0; 0; 0]%list
+    = Some ([380 # 441; 3 # 8; 151 # 196; 4 # 9], [0; 0; 0; 0])%list /\
+  run_gwb [[0; 1; 0; 2]; [1; 0; 3; 0]; [0; 3; 0; 1]; [2; 0; 1; 0]]%list [2; 2; 1; 1]%Z [0; 2; 2; 0]%list [0; 0; 0; 0]%list
+    = Some ([305 # 441; 3 # 8; 375 # 392; 4 # 9], [0; 0; 0; 0])%list.
+Proof. exact gwb_witness_values. Qed.
+
 (* the REPAIRED form (proposed_fixes/gateway_coef_sign.diff: column sums with axis=0, own column halved, neighbour
    centralities indexed by node) is a function of the partition only *)
 Theorem C14_gateway_coef_sign_repaired_partition_only : forall n W ci ci' i, same_part n ci ci' -> (i < n)%nat ->
@@ -219,6 +299,50 @@ Proof. exact ci2ls_ls2ci_inverse. Qed.
 Theorem C14_ci2ls_blocks : forall n ci u i, (u < vmax n (relabel n ci))%nat ->
   (In i (nth u (ci2ls n ci) []) <-> (i < n)%nat /\ relabel n ci i = S u).
 Proof. exact ci2ls_blocks. Qed.
+
+(* the REVERSE direction, for the whole routines (Model/PartitionLS.v: early returns, zeroindexed, IndexError = None):
+   for a partition of 0..N-1 in list form (every index once, N = number of entries, no empty block) and either value of
+   zeroindexed, ls2ci does not raise, returns one label per index, and ci2ls gives the list back with every block written
+   in ascending order (sort_block N b is a sorted permutation of b) *)
+Theorem C14_ls2ci_ci2ls_inverse : forall zi ls, blocks_ok ls ->
+  exists ci, ls2ci_run zi ls = Some ci /\ length ci = length (concat ls) /\
+             ci2ls_run (map Z.of_nat ci) = map (sort_block (length ci)) ls /\
+             forall b, In b ls -> Permutation (sort_block (length ci) b) b /\ StronglySorted lt (sort_block (length ci) b).
+Proof. exact ls2ci_ci2ls_inverse. Qed.
+
+(* the forward direction for the whole routines: ls2ci(ci2ls(ci), zeroindexed) = np.unique ranks, from 1 or from 0 *)
+Theorem C14_ci2ls_ls2ci_run : forall zi (cil : list Z), cil <> [] ->
+  let n := length cil in
+  ls2ci_run zi (ci2ls_run cil) =
+  Some (map (fun i => (pred (relabel n (of_list 0%Z cil) i) + (if zi then 0 else 1))%nat) (seq 0 n)).
+Proof. exact ci2ls_ls2ci_run. Qed.
+
+(* empty input (ci2ls returns its empty argument, ls2ci an empty tuple); an index >= N raises IndexError; with an EMPTY
+   block the labels have a gap that ci2ls closes: ci2ls(ls2ci(ls)) drops the empty block (hence the hypothesis above) *)
+Theorem C14_ls2ci_ci2ls_edge_cases :
+  (forall zi, ls2ci_run zi [] = Some []) /\ ci2ls_run [] = [] /\
+  (forall zi ls y, ls <> [] -> In y (concat ls) -> (length (concat ls) <= y)%nat -> ls2ci_run zi ls = None) /\
+  (ls2ci_run false [[2; 0]; []; [1]]%nat = Some [1; 3; 1]%nat /\ ci2ls_run [1; 3; 1]%Z = [[0; 2]; [1]]%nat).
+Proof.
+  split; [exact ls2ci_run_empty|]. split; [exact ci2ls_run_empty|]. split; [exact ls2ci_run_raises|exact ls2ci_ci2ls_empty_block].
+Qed.
+
+Example C14_ls2ci_ci2ls_nonvacuous :
+  blocks_ok [[3; 0]; [2]; [4; 1]]%nat /\ ls2ci_run true [[3; 0]; [2]; [4; 1]]%nat = Some [0; 2; 1; 0; 2]%nat /\
+  ci2ls_run [0; 2; 1; 0; 2]%Z = [[0; 3]; [2]; [1; 4]]%nat.
+Proof.
+  split; [|split; vm_compute; reflexivity]. split; [|split].
+  - cbn [concat app]. repeat (constructor; [cbn [In]; intuition lia|]). constructor.
+  - cbn [concat app length]. intros y Hy. cbn [In] in Hy. intuition lia.
+  - intros b Hb. cbn [In] in Hb. intuition (subst; discriminate).
+Qed.
+
+Example C14_und_sign_models_agree_nonvacuous :
+  let W := of_rows 0 [[0; 2; -1; 3]; [2; 0; 1; -2]; [-1; 1; 0; 1 # 2]; [3; -2; 1 # 2; 0]]%list in
+  let ci := of_list 0%Z [5; 5; 9; 2]%Z in
+  Qred (modularity_und_sign_q 4 W ci Qsta) = Qred (Modularity.Qsign 4 W 1 Modularity.Qsta (of_list 0%nat [7; 7; 0; 3]%nat)) /\
+  ~ modularity_und_sign_q 4 W ci Qsta == 0.
+Proof. vm_compute. split; [reflexivity|discriminate]. Qed.
 
 (* non-vacuity: a non-monotone injective renaming permutes the block order, the consumers do not move *)
 Example C14_nonvacuous :
@@ -265,3 +389,12 @@ Print Assumptions C14_gateway_witness_values.
 Print Assumptions C14_gateway_coef_sign_repaired_partition_only.
 Print Assumptions C14_ci2ls_ls2ci_inverse.
 Print Assumptions C14_ci2ls_blocks.
+Print Assumptions C14_und_sign_models_agree.
+Print Assumptions C14_agreement_statement_level.
+Print Assumptions C14_dummyvar_spec.
+Print Assumptions C14_ls2ci_ci2ls_inverse.
+Print Assumptions C14_ci2ls_ls2ci_run.
+Print Assumptions C14_ls2ci_ci2ls_edge_cases.
+Print Assumptions C14_gateway_coef_sign_degree_instance.
+Print Assumptions C14_gateway_coef_sign_betweenness_refuted.
+Print Assumptions C14_gateway_betweenness_witness_values.
